@@ -3,7 +3,9 @@ import Driver.OpsHist
 import Driver.OpsMass
 import Driver.OpsNet
 import Driver.OpsPT
+import Driver.OpsPar
 import Driver.OpsSP
+import Driver.OpsSerde
 import Driver.OpsTrain
 namespace Driver
 def allHandlers : List (String × Handler) :=
@@ -11,6 +13,8 @@ def allHandlers : List (String × Handler) :=
   Driver.OpsMass.handlers ++
   Driver.OpsNet.handlers ++
   Driver.OpsPT.handlers ++
+  Driver.OpsPar.handlers ++
   Driver.OpsSP.handlers ++
+  Driver.OpsSerde.handlers ++
   Driver.OpsTrain.handlers
 end Driver
